@@ -826,6 +826,46 @@ func ruleQuality(c *Ctx) {
 			pair(n.name, n.val, "Qphred", dP, eP)
 		}
 	}
+	// the decode function of the other scale: the byte's offset is removed on the encoding's own scale
+	// and the result converted — (Qsolexa(q) - 64).Qphred(), not Qsolexa(q).Qphred() - 64
+	for _, n := range encs {
+		if n.name == "None" {
+			continue
+		}
+		native, cross, scale := dP, dS, "Qsolexa"
+		if n.name == "Solexa" {
+			native, cross, scale = dS, dP, "Qphred"
+		}
+		nd := readDecode(native, n.val)
+		if !nd.hasOffset || !nd.direct {
+			continue // reported by the pair above
+		}
+		key := "alphabet.Encoding/" + n.name + "/" + scale + "-decode-converts-after-the-offset"
+		var bad, seen bool
+		why := ""
+		for _, o := range run(cross, aval{known: true, k: n.val}, sym) {
+			if o.panics || o.noRes || !o.res.known || o.res.coef != 1 {
+				continue
+			}
+			seen = true
+			switch {
+			case o.res.conv == "":
+				bad, why = true, "the byte is returned on the encoding's own scale without the conversion"
+			case o.res.k != 0:
+				bad, why = true, fmt.Sprintf("%d is added after the scale conversion: the offset has to come off the byte before it is converted, the two scales differ below Q 10", o.res.k)
+			case o.res.preOK && -o.res.pre != nd.offset:
+				bad, why = true, fmt.Sprintf("the byte minus %d is converted, but the encoding's offset is %d", -o.res.pre, nd.offset)
+			}
+		}
+		switch {
+		case !seen:
+			c.triv(rule, key, cross.Pos(), "no evaluable path")
+		case bad:
+			c.bad(rule, key, cross.Pos(), "decoding "+n.name+" to the other scale: "+why)
+		default:
+			c.ok(rule, key, cross.Pos(), "the encoding's offset is removed first, then the score is converted")
+		}
+	}
 	c.floor(rule, 6)
 }
 
